@@ -1,9 +1,15 @@
 //! Worker thread logic for executing tasks from queues.
 
 use std::collections::VecDeque;
+#[cfg(not(folo_verif))]
 use std::sync::Mutex;
+#[cfg(not(folo_verif))]
 use std::sync::atomic::{self, AtomicBool, Ordering};
 
+#[cfg(folo_verif)]
+use crate::verif_sync::Mutex;
+#[cfg(folo_verif)]
+use crate::verif_sync::atomic::{self, AtomicBool, Ordering};
 use crate::{ErasedTaskHandle, NEVER_POISONED};
 
 /// What one pass of a worker's main loop accomplished, and thus what the loop does next.
